@@ -1,7 +1,8 @@
 From Coq Require Import List Arith NArith Bool.
 From V.gen Require ConnExits.
 From V.Mgr Require Import Model Caps.
-From V.C07 Require Import Model Proofs Compose.
+From V.Ts Require Import Report ReportProofs.
+From V.C07 Require Import Model Proofs Compose Block BlockProofs.
 Import ListNotations.
 Open Scope N_scope.
 From V.C07 Require Import Properties.
@@ -142,3 +143,38 @@ Check (C07_node_no_rollback :
   forall L es nd c ok, In (AcceptDone c ok) (snd (snd (node_run L nd es))) -> ok = true).
 Check (C07_node_init :
   forall L n, NodeInv L (node_init n) [] []).
+Check (C07_block_invariant :
+  forall me n cap es, Binv me (fst (brun (binit n cap) es))).
+Check (C07_block_manager_told_once :
+  forall me es s, (cnt_out (is_mgr me) (snd (brun s es)) <= 1)%nat).
+Check (C07_block_told_after_protocols :
+  forall me s e, Binv me s -> In (OMgrClosed me) (snd (bstep s e)) ->
+  let s' := fst (bstep s e) in
+  busy_in me (s_ch s') = false /\
+  exists bc, find_c me (s_conns s') = Some bc /\ b_ph bc = PDone /\
+    forall p, nth p (alive (b_task bc)) false = true -> In (IClosed me) (racc_at (s_ch s') p)).
+Check (C07_block_closed_once_per_channel :
+  forall me s p, Binv me s ->
+  (cntc me (racc_at (s_ch s) p) <= 1)%nat /\
+  ((forall bc, find_c me (s_conns s) = Some bc -> is_gone (b_task bc) = false) -> cntc me (racc_at (s_ch s) p) = 0%nat)).
+Check (C07_block_parked_report_completes :
+  forall me s bc, Binv me s -> (1 <= s_cap s)%nat -> find_c me (s_conns s) = Some bc ->
+  let s1 := fst (brun s (flush s)) in
+  snd (brun s (flush s)) = [] /\
+  match b_ph bc with
+  | PWaitClosed => snd (bstep s1 (BResume me)) = [OMgrClosed me] /\
+                   ph_of me (fst (bstep s1 (BResume me))) = Some PDone
+  | PWaitEst => snd (bstep s1 (BResume me)) = [OAccepted me] /\
+                ph_of me (fst (bstep s1 (BResume me))) = Some PRun
+  | PWaitSub => ph_of me (fst (bstep s1 (BResume me))) = Some PRun
+  | _ => True
+  end).
+Check (C07_block_delivered_exactly_once :
+  forall me s bc p ch, Binv me s -> (1 <= s_cap s)%nat ->
+  find_c me (s_conns s) = Some bc -> is_gone (b_task bc) = true ->
+  nth p (alive (b_task bc)) false = true -> nth p (s_alive s) false = true ->
+  nth_error (s_ch (fst (brun s (flush s)))) p = Some ch ->
+  cntc me (rdel ch) = 1%nat).
+Check (C07_block_waits_until_drained :
+  forall me p es s, forallb (leaves_alone p) es = true -> busy_at me (s_ch s) p = true ->
+  busy_at me (s_ch (fst (brun s es))) p = true /\ cnt_out (is_mgr me) (snd (brun s es)) = 0%nat).
